@@ -252,7 +252,8 @@ ENS(A + (size_t) self->len <= (size_t) OLEN(self))
 ENS(!(vg_j < A) || VISSPACE(OLD_BYTE(self, vg_j)))
 ENS(!(vg_j >= A + (size_t) self->len && vg_j < (size_t) OLEN(self)) || VISSPACE(OLD_BYTE(self, vg_j)))
 ENS(A != vg_n1 || !(vg_k < (size_t) self->len) || self->buff[vg_k] == OLD_BYTE(self, vg_n1 + vg_k))
-ENS_KF(self->len == 0 || (!VISSPACE(self->buff[0]) && !VISSPACE(self->buff[self->len - 1])))
+/* first and last byte of the result are not blank (stated for the ghost index: the copy models track byte vg_k only) */
+ENS_KF(self->len == 0 || !(vg_k == 0 || vg_k == (size_t) self->len - 1) || !VISSPACE(self->buff[vg_k]))
 # else
 ENS(self->len == 0)
 # endif
